@@ -3,6 +3,7 @@
    they hold for every operand value (all of Z restricted to int64 by the parser, all spec floats,
    all strings) and every state; Base/Int64.v gives the wrap-around facts. *)
 From Coq Require Import String List ZArith Bool Arith Floats.SpecFloat Lia.
+From Anko Require Base.OfIntExact.
 From Anko Require Import Base.Int64 Base.F64 Env.EnvModel Interp.Ast Interp.Value Interp.ToX Interp.Equal Interp.Model.
 Import ListNotations.
 Open Scope Z_scope.
@@ -116,6 +117,12 @@ Print Assumptions div_is_float.
 Print Assumptions float_contagion_add.
 Print Assumptions string_plus_int.
 Print Assumptions string_repeat.
+
+(* float64(int64), which every mixed int / float operation and every float parameter applies, is exact for
+   integers of at most 53 bits: the float converts back to the same integer (no bound on which ones) *)
+Theorem integers_below_2_53_become_floats_exactly : forall z, - 2 ^ 53 < z < 2 ^ 53 -> F64.to_int (F64.of_int z) = z.
+Proof. exact OfIntExact.small_integers_are_floats_exactly. Qed.
+Print Assumptions integers_below_2_53_become_floats_exactly.
 
 (* non-vacuity at the edges the property names *)
 Example ex_c05 :
